@@ -44,6 +44,10 @@ loop:
 			return err
 		}
 	}
+	// Let the filesystem complete what can only be done at the end
+	if f, ok := fs.(interface{ finalize() error }); ok {
+		return f.finalize()
+	}
 	return nil
 }
 
